@@ -553,6 +553,9 @@ func aggrKeyKind(val any) byte {
 		return 'n'
 	case bool:
 		return 'b'
+	case nil:
+		// A missing or null JSON member is not the empty text
+		return 'z'
 	}
 	return 's'
 }
